@@ -24,3 +24,12 @@ use block_builder::BlockBuilder;
 
 mod filter_block_builder;
 use filter_block_builder::FilterBlockBuilder;
+
+/// Verification hook: the block builder type is private to this module.
+#[cfg(feature = "verif")]
+pub(crate) type BlockBuilderForVerif = BlockBuilder<crate::key::InternalKey>;
+/// Verification hook: construct a block builder.
+#[cfg(feature = "verif")]
+pub(crate) fn new_block_builder_for_verif(restart_interval: usize) -> BlockBuilderForVerif {
+    BlockBuilder::new(restart_interval)
+}
